@@ -88,11 +88,19 @@ def uncoveredCount (segs : List (Seg α)) (lo n : Nat) : Nat :=
 def visiblePayload (ipHdr k n : Nat) : Option Nat :=
   if k < ipHdr + 20 then none else some (min n (k - ipHdr - 20))
 
+/-- `packet`, flowsdecoder.go:264-273 (after fix e2e770fa): the TCP layer is handed to the assembler only if it
+    has contents, i.e. iff its header could be decoded — exactly when something of the segment is visible -/
+def reachesAssembler (ipHdr k n : Nat) : Bool := (visiblePayload ipHdr k n).isSome
+
 /-- the cut is inside the TCP header (at least one byte of it is there: with an empty IP payload gopacket's
-    `NextDecoder` does not call a decoder at all): gopacket's `decodeTCP` still adds the (zero) TCP layer before it reports
-    the error (layers/tcp.go), so fq's `packet` hands a segment without ports, flags and payload to the
-    assembler and `New` makes a connection with ports 0 (flowsdecoder.go:114-125 "assume zero port for now") -/
+    `NextDecoder` does not call a decoder at all): gopacket's `decodeTCP` still adds the (zero) TCP layer before
+    it reports the error (layers/tcp.go) -/
 def tcpHeaderCut (ipHdr k : Nat) : Bool := decide (ipHdr < k) && decide (k < ipHdr + 20)
+
+/-- OLD `packet` (before e2e770fa, kept for `Props.C19.tcp_header_cut_regression`): every TCP layer went to the
+    assembler, also the zero layer of a header cut by the snap length — a segment without ports, flags and
+    payload, for which `New` made a connection with ports 0 (flowsdecoder.go:114-125 "assume zero port for now") -/
+def reachesAssemblerOld (ipHdr k n : Nat) : Bool := (visiblePayload ipHdr k n).isSome || tcpHeaderCut ipHdr k
 
 /-- a segment of which only the first `k` payload bytes were captured -/
 def truncSeg (k : Nat) (g : Seg α) : Seg α := ⟨g.off, min k g.len, g.data.take k⟩
